@@ -174,6 +174,22 @@ theorem error_means_keep (s s' : State) (i : Nat) (u : Path) (answers : List Ans
         · exact Or.inr (Or.inl e)
       exact absurd hdel (decision_ne_delete x.range t _ hnc ⟨ra, hra, ho, hans'⟩)
 
+/-- An operator whose redeploy fails (or is still loading) keeps serving the instance it had: nothing it holds
+changes, so its `NeedsTable` answers stay what they were (`HandleDeploy` assigns `o.db` only after `dkv.Open`
+returned). The correspondence drives a real `operator.Operator` through a failing `HandleDeploy` and asks it through
+`HandleNeedsTable` in that window. -/
+theorem failed_redeploy_keeps_serving (s s' : State) (i : Nat) (h : step s (.redeployFailed i) = some s') :
+    s' = s ∧ ∃ x, s.insts[i]? = some x ∧ x.life = .alive := by
+  simp only [step] at h
+  split at h
+  · simp at h
+  · rename_i x hx
+    split at h
+    · rename_i hl
+      injection h with h
+      exact ⟨h.symm, x, hx, hl⟩
+    · simp at h
+
 /-- the pure rule behind it -/
 theorem error_means_keep_rule (own : KGRange) (t : Tbl) (nbrs : List (KGRange × Ans))
     (hnc : Gen.kgContains own t.span = false)
